@@ -9,6 +9,7 @@ CONSTANTS
   BodyMode = "len"
   StyleMode = "all"
   PhraseMode = "reg"
+  ManyMode = "none"
   MaxBig = 11
 SPECIFICATION MCSpec
 INVARIANTS SerValid RoundTrip ParCorrect Bounded LFIndexOk LemmaInv SrvDenotes NeverErr
